@@ -592,6 +592,7 @@ pub fn simple_logical(carrier: Carrier, time_ns: i128) -> Logical {
         scope_date_override: None,
         decoys: false,
         unsigned_date: false,
+        raw_key: None,
     }
 }
 
@@ -628,7 +629,7 @@ pub fn c04(ctx: &mut Ctx) {
     }
     // (zone offset seconds, separator mask, fraction digits): UTC, whole and sub-hour offsets of both signs
     // (including the -00:MM ones, where the sign lives on a zero hour), basic and extended, fractions
-    let styles: [(i64, u8, usize); 11] = [(0, 0, 0), (0, 15, 0), (0, 5, 0), (5400, 15 + 16, 0), (-28800, 0, 0), (0, 0, 3), (-1800, 15 + 16, 0), (-900, 0, 0), (2700, 0, 2), (-2700, 16, 9), (-(13 * 3600 + 2700), 15, 0)];
+    let styles: [(i64, u8, usize); 13] = [(0, 0, 0), (0, 15, 0), (0, 5, 0), (5400, 15 + 16, 0), (-28800, 0, 0), (0, 0, 3), (-1800, 15 + 16, 0), (-900, 0, 0), (2700, 0, 2), (-2700, 16, 9), (-(13 * 3600 + 2700), 15, 0), (0, 32, 3), (3600, 15 + 16 + 32, 9)];
     let mut jobs = Vec::new();
     let mut k = 0usize;
     for sv in &servers {
@@ -693,6 +694,26 @@ pub fn c04(ctx: &mut Ctx) {
                     let near_limit = now.0 < lo.timestamp() + 900 || now.0 > hi.timestamp() - 900;
                     let expect = if near_limit { Expect::Any } else if diff.abs() <= 900_000_000_000 { Expect::Accept } else { Expect::Refuse(Some("SignatureDoesNotMatch")) };
                     jobs.push(job(sg.case, expect, "c04-extreme-clock", "C04: accept iff |t - now| <= 15 min, also for server clocks outside years 1-9999"));
+                }
+            }
+        }
+        run_jobs(ctx, "VALIDATE", std::mem::take(&mut jobs));
+    }
+    // every rendering style at the bounds and a fraction of a second beyond them: the fraction counts whether
+    // it is written with '.' or ',' and however many digits it has
+    {
+        let t0: i128 = 1_440_938_160_000_000_000;
+        let now = now_for(&simple_logical(Carrier::Header, t0), 0);
+        for (si, style) in styles.iter().enumerate() {
+            for comma in [0u8, 32] {
+                for (oi, off) in [900_000_000_000i128, 900_000_000_001, 900_500_000_000, 900_999_999_999, 901_000_000_000, -900_000_000_000, -900_000_000_001, -900_250_000_000, 899_999_999_999, -899_500_000_000].iter().enumerate() {
+                    let mut l = simple_logical(if (si + oi) % 2 == 0 { Carrier::Header } else { Carrier::Query }, t0 + off);
+                    l.time_style = (style.0, (style.1 & !32) | comma, style.2.max(if off % 1_000_000_000 != 0 { 1 } else { 0 }));
+                    let sg = sign_and_spell(&l, &mut rng, &Spelling::plain(), now);
+                    let inside = off.abs() <= 900_000_000_000;
+                    let mut j = job(sg.case, if inside { Expect::Accept } else { Expect::Refuse(Some("SignatureDoesNotMatch")) }, if inside { "c04-inside" } else { "c04-outside" }, "C04: accept iff |t - now| <= 15 min, the fraction of a second included, in every textual form");
+                    j.expect_calls = Some(if inside { 1 } else { 0 });
+                    jobs.push(j);
                 }
             }
         }
@@ -765,7 +786,7 @@ pub fn c04(ctx: &mut Ctx) {
         }
         let mut l = simple_logical(if rng.chance(1, 3) { Carrier::Query } else { Carrier::Header }, t);
         let zone = if rng.chance(1, 2) { 0 } else { *rng.pick(&[-900i64, -1800, -3540, -60, 60, 1800, 3600, -3600, 5 * 3600 + 2700, -(9 * 3600 + 1800), 14 * 3600, -14 * 3600]) };
-        l.time_style = (zone, rng.below(32) as u8, if rng.chance(1, 4) { rng.below(12) } else { 0 });
+        l.time_style = (zone, rng.below(64) as u8, if rng.chance(1, 4) { rng.below(12) } else { 0 });
         {
             // the local rendering must stay within years 0001..9999
             let local_days = (t.div_euclid(1_000_000_000) as i64 + zone).div_euclid(86400);
@@ -921,8 +942,9 @@ pub fn c03(ctx: &mut Ctx) {
         // timestamps within 2 s of midnight UTC, with zone offsets, for a third of the cases
         if i % 3 == 0 {
             let day = if i % 6 == 3 { *rng.pick(&[17896i64, 16801, 16802, 18628, 20088, 18992, 17897]) + rng.below(2) as i64 } else { rng.range(16000, 20000) };
-            l.time_ns = (day as i128 * 86400 + rng.range(-2, 2) as i128) * 1_000_000_000;
-            l.time_style = (*rng.pick(&[0i64, 3600, -3600, 5 * 3600 + 1800, -8 * 3600, 14 * 3600]), rng.below(32) as u8, 0);
+            // also inside the last/first second of a day, with a fraction (a rounded timestamp would cross the day)
+            l.time_ns = (day as i128 * 86400 + rng.range(-2, 2) as i128) * 1_000_000_000 + *rng.pick(&[0i128, 0, 500_000_000, 750_000_000, 999_999_999, 499_999_999, 1]);
+            l.time_style = (*rng.pick(&[0i64, 3600, -3600, 5 * 3600 + 1800, -8 * 3600, 14 * 3600]), rng.below(64) as u8, *rng.pick(&[0usize, 1, 3, 9]));
         }
         let now = now_for(&l, rng.range(-300, 300) as i128 * 1_000_000_000);
         let s = sign_and_spell(&l, &mut rng, &Spelling::plain(), now);
@@ -1186,8 +1208,10 @@ pub fn c05(ctx: &mut Ctx) {
                 let exact_lower = rng.chance(1, 3);
                 let pick: &str = if rng.chance(1, 4) { *rng.pick(&prefixes_pool) } else { *rng.pick(&pool) };
                 let name = if exact_lower { pick.to_ascii_lowercase() } else { mix(&mut rng, pick) };
-                let code = *rng.pick(&['A', 'A', 'I', 'I', 'P', 'a', 'i', 'p']);
+                // 'V': the container is used for a validation at this point of its history
+                let code = *rng.pick(&['A', 'A', 'I', 'I', 'P', 'a', 'i', 'p', 'V', 'V']);
                 match code {
+                    'V' => {}
                     'A' => vec_add(&mut a2, &name),
                     'I' => vec_add(&mut i2, &name),
                     'P' => vec_add(&mut p2, &name),
@@ -1216,7 +1240,8 @@ pub fn c05(ctx: &mut Ctx) {
                 }
             }
             // the model's container semantics against the reference used above
-            let line = format!("REQOPS {}", if ops.is_empty() { ".".to_string() } else { ops.iter().map(|(c, n)| format!("{}{}", c, hx(n.as_bytes()))).collect::<Vec<_>>().join(",") });
+            let mops: Vec<&(char, String)> = ops.iter().filter(|(c, _)| *c != 'V').collect();
+            let line = format!("REQOPS {}", if mops.is_empty() { ".".to_string() } else { mops.iter().map(|(c, n)| format!("{}{}", c, hx(n.as_bytes()))).collect::<Vec<_>>().join(",") });
             let model = ctx.drv.ask(&line);
             let want = format!("{} {} {}", hx_list(&always), hx_list(&ifreq), hx_list(&prefixes));
             ctx.rep.count("evaluations");
